@@ -11,6 +11,7 @@
     * `skip`, the input length ≤ usize::MAX (the translated code computes in `usize`).
 -/
 import IQE.Lemmas.OrderAux
+import IQE.Lemmas.ExternalMerge
 namespace IQE.Props.C25
 open IQE IQE.Spec IQE.Gen.Limit IQE.Engine.SortLimit
 open IQE.Lemmas.Sorting IQE.Lemmas.KeyOrder IQE.Lemmas.LimitStream IQE.Lemmas.SortModel IQE.Lemmas.OrderAux
@@ -158,6 +159,36 @@ theorem C25_ties (fo : FloatOps) (fns : String → List Val → Except Err Val) 
         have hk' := (keysPointwiseEq_iff fo _ ko ke).1 hk
         refine ⟨full, ko, ke, hfull, hko, ?_, hk'.1, hk'.2, mem_of_subBag out full hb⟩
         cases fetch <;> exact hke
+
+/-! ### C25_spilled -/
+
+/-- The spilled sort (C08's merge theorem) followed by `take`: for ANY total preorder and ANY cut of the input into runs, the
+    first `k` rows of the k-way merge of the sorted runs agree with `(sort xs).take k` position by position up to ties, and the
+    merge itself is a sorted permutation of the input.  (The unchanged tree does not apply `fetch` on this path and merges with a
+    different NULL placement: findings C08-F1 / C08-F2, see Props/C08.) -/
+theorem C25_spilled {α : Type} (le lt : α → α → Bool) (hs : IQE.Lemmas.ExternalMerge.StrictOf le lt)
+    (runsOfBatches : List (List (List α))) (k : Nat) :
+    let runs := runsOfBatches.map (fun bs => bs.flatten.mergeSort le)
+    let all := runsOfBatches.flatten.flatten
+    (IQE.Engine.ExternalMerge.mergeAll lt runs).Pairwise (fun a b => le a b) ∧
+    (IQE.Engine.ExternalMerge.mergeAll lt runs).Perm all ∧
+    PointwiseTied le ((IQE.Engine.ExternalMerge.mergeAll lt runs).take k) ((all.mergeSort le).take k) := by
+  intro runs all
+  have hsorted : IQE.Lemmas.ExternalMerge.RunsSorted le runs := by
+    intro r hr
+    obtain ⟨bs, _, rfl⟩ := List.mem_map.1 hr
+    exact List.pairwise_mergeSort hs.trans hs.total _
+  have gen : ∀ (rb : List (List (List α))), (rb.map (fun bs => bs.flatten.mergeSort le)).flatten.Perm rb.flatten.flatten := by
+    intro rb
+    induction rb with
+    | nil => simp
+    | cons b bs ih =>
+      simp only [List.map_cons, List.flatten_cons, List.flatten_append]
+      exact (List.mergeSort_perm _ _).append ih
+  obtain ⟨m1, m2⟩ := IQE.Lemmas.ExternalMerge.mergeAll_spec hs runs hsorted
+  have hperm := m2.trans (gen runsOfBatches)
+  exact ⟨m1, hperm, (sorted_perm_pointwise hs.trans hs.total (hperm.trans (List.mergeSort_perm all le).symm) m1
+    (List.pairwise_mergeSort hs.trans hs.total all)).take k⟩
 
 /-! ### non-vacuity -/
 
